@@ -17,9 +17,9 @@ from concurrent.futures import ProcessPoolExecutor, as_completed
 
 VERIF = os.path.dirname(os.path.dirname(os.path.abspath(__file__)))
 REPO = os.environ.get("VERIF_REPO", "/repo")
-TARGET = os.path.join(VERIF, "target")
-EVIDENCE_DIR = os.path.join(VERIF, "evidence")
-REPLAY_DIR = os.path.join(VERIF, "replays")
+TARGET = os.environ.get("VERIF_TARGET") or os.path.join(VERIF, "target")
+EVIDENCE_DIR = os.environ.get("VERIF_EVIDENCE_DIR") or os.path.join(VERIF, "evidence")
+REPLAY_DIR = os.environ.get("VERIF_REPLAY_DIR") or os.path.join(VERIF, "replays")
 KNOWN_FILE = os.path.join(VERIF, "known_findings.jsonl")
 NCPU = min(16, os.cpu_count() or 4)
 
